@@ -21,3 +21,5 @@ try:
 finally:
     subprocess.run(["git", "-C", "/repo", "checkout", "--", "."])
     subprocess.run(["git", "-C", "/repo", "clean", "-fdq"])
+    # evidence must come from clean-tree runs only
+    subprocess.run(["git", "-C", "/verif", "checkout", "--", "evidence"])
